@@ -1528,7 +1528,7 @@ fn parse_mapping(mapping: &Mapping) -> crate::Result<Expression> {
                                         .collect::<Vec<_>>(),
                                 )
                                 .build()
-                                .expect("could not build regex set"),
+                                .map_err(crate::error::parse_invalid_ident)?,
                                 false,
                             ),
                             f.to_owned(),
@@ -1558,7 +1558,7 @@ fn parse_mapping(mapping: &Mapping) -> crate::Result<Expression> {
                                 )
                                 .case_insensitive(true)
                                 .build()
-                                .expect("could not build regex set"),
+                                .map_err(crate::error::parse_invalid_ident)?,
                                 true,
                             ),
                             f.to_owned(),
